@@ -256,6 +256,12 @@ def P0 : Progs :=
     plainWait := [.waitFor false, .retRet],
     taskWait := [.waitFor true, .raiseIfStop, .retRet] }
 
+/-- for every statement of a list: is the lock held when it executes? (`acq` / `rel` recognise `acquire` / `release`) -/
+def lockedFlags (acq rel : α → Bool) : List α → Bool → List (α × Bool)
+  | [], _ => []
+  | x :: xs, held =>
+    (x, held) :: lockedFlags acq rel xs (if acq x then true else if rel x then false else held)
+
 /-- `n` consecutive steps of thread `i` -/
 def steps (i n : Nat) : List Act := List.replicate n (.step i)
 
